@@ -7,6 +7,9 @@
 //---------------------------------------------------------------------------//
 #pragma once
 
+#include <cmath>
+
+#include "corecel/Macros.hh"
 #include "celeritas/Quantities.hh"
 #include "celeritas/phys/InteractionUtils.hh"
 #include "celeritas/phys/Secondary.hh"
@@ -122,6 +125,13 @@ CELER_FUNCTION Interaction IoniFinalStateHelper::operator()(Engine& rng)
     result.energy = Energy{inc_energy_ - electron_energy_};
     result.direction = calc_exiting_direction(
         {inc_momentum_, inc_direction_}, {momentum, secondary_->direction});
+    if (CELER_UNLIKELY(std::isnan(result.direction[0])))
+    {
+        // The delta ray carries away the full momentum (incident energy
+        // within rounding of the production cut): the stopped primary has
+        // no defined direction, so keep the incident one
+        result.direction = inc_direction_;
+    }
     result.secondaries = {secondary_, 1};
 
     return result;
